@@ -71,6 +71,15 @@ def run(chk: core.Check, tier: str, seed: int) -> None:
                     except core.Unrepresentable:
                         pass
                 recs.append(impl.rec_total(jp, q, doc))
+    # evaluation on comparisons whose BOTH sides come from the data, over every pair of kinds
+    from .c06 import COMPARANDS, NOTHING  # noqa: PLC0415
+    vals = [c for c in COMPARANDS if c is not NOTHING]
+    pairs = [(a, b) for a in vals for b in vals]
+    for a, b in (rng.sample(pairs, 500) if tier == "quick" else pairs):
+        doc = {"t": [{"l": a, "r": b}, {"l": b}, {"r": [a, b]}], "ref": b}
+        for q in ("$.t[?@.l == @.r]", "$.t[?@.l <= $.ref]", "$.t[?value(@.l) != value(@.r)]", "$.t[?@.r[0] >= @.r[1]]",
+                  "$.t[?match(@.l, @.r) || search(@.r, @.l)]", "$.t[?length(@.l) == length(@.r)]"):
+            recs.append(impl.rec_total(jp, q, doc))
     for r in recs:
         chk.nontrivial.add((tuple(r["q"]), r["op"], str(r.get("doc"))[:60]))
     longest = max(recs, key=lambda r: len(r["q"]))
